@@ -585,7 +585,7 @@ type c13Replay struct {
 // c13CheckCase runs the repetitions and the file orders of one case in this
 // process; returns the observation of the identity order.  reps is the number
 // of in-process repetitions of the identity order (other orders get
-// max(2, reps/5)).
+// max(2, reps/10)).
 func c13CheckCase(e *env, c *c13Case, reps int, orders [][]int) (first *c13Obs, reg *template.Registry, failed bool) {
 	n := len(c.Files)
 	id := c13Front(n, 0)
@@ -593,7 +593,7 @@ func c13CheckCase(e *env, c *c13Case, reps int, orders [][]int) (first *c13Obs, 
 	for oi, p := range orders {
 		k := reps
 		if oi > 0 && c13PermKey(p) != c13PermKey(id) {
-			k = reps / 5
+			k = reps / 10
 			if k < 2 {
 				k = 2
 			}
@@ -675,12 +675,12 @@ func c13CheckCase(e *env, c *c13Case, reps int, orders [][]int) (first *c13Obs, 
 // ---------- driver ----------
 
 func runC13(e *env) {
-	e.res.Rule = fmt.Sprintf("bundles of the program generator (1-5 templates over 1-3 files, all commands, messages, directives) plus an extras file (2-4 cross-namespace calls + directives + functions for the ES6 import block, messages with colliding placeholder base names and equal map-literal placeholders, nested map literals, globals) and 0-2 globals maps; 45%% of the bundles get 1-3 independent injected errors (syntax, namespace, soydoc+header params, duplicate template, unknown data refs / globals inside one map literal, unused param/let, bad calls, globals redefined by a second map) spread over the files. Each bundle: %d in-process compile+emit repetitions of the identity order, 2..4 of every other permutation of the file order (<= 4 files: all permutations), 2 fresh processes; ES5 and ES6, with and without a message bundle; every template rendered with and without the bundle. Non-trivial = more than one file or an injected error or a message/map literal/import; distinct by sources + globals.", c13Reps)
+	e.res.Rule = fmt.Sprintf("bundles of the program generator (1-5 templates over 1-3 files, all commands, messages, directives) plus an extras file (2-4 cross-namespace calls + directives + functions for the ES6 import block, messages with colliding placeholder base names and equal map-literal placeholders, nested map literals, globals) and 0-2 globals maps; 45%% of the bundles get 1-3 independent injected errors (syntax, namespace, soydoc+header params, duplicate template, unknown data refs / globals inside one map literal, unused param/let, bad calls, globals redefined by a second map) spread over the files. Each bundle: %d in-process compile+emit repetitions of the identity order, 2 of every other permutation of the file order (<= 4 files: all permutations), 2 fresh processes; ES5 and ES6, with and without a message bundle; every template rendered with and without the bundle. Non-trivial = more than one file or an injected error or a message/map literal/import; distinct by sources + globals.", c13Reps)
 	if e.replay != "" {
 		c13ReplayRun(e)
 		return
 	}
-	n := 800 * e.scale
+	n := 500 * e.scale
 	var batch []c13Job
 	var batchFirst []*c13Obs
 	flush := func() {
